@@ -3,7 +3,10 @@
 (a) failing-input search on the real code: (callee, caller) programs over the argument shapes of
     the property (variables, tuple elements, repeated, swapped, several calls, nested calls, local
     variables, expressions, constants, literal tuples, width mismatch, names that collide with the
-    callee prefix, callee chains, inline FunctionDef, oraclize wrappers).  Oracle: the Python
+    callee prefix, callee chains, inline FunctionDef, oraclize wrappers; callees - inline and defs=,
+    several statements, tuple/Qint results, nested calls - whose parameters / locals / own names
+    look like the library's internal names: `_ret...`, `_<name>`/`__...`, `anc_...`, `TRUE`/`FALSE`,
+    `_iftarg...`, `_temptup`, the caller's names, `<callee>_<name>`).  Oracle: the Python
     sources executed with plain bools/ints/tuples on ALL inputs (fixed-width wrap of the declared
     return type); the caller's expressions are evaluated by harness/bexp.py (not sympy); free
     symbols of the caller must be its argument bits or earlier definitions; the callee objects'
@@ -381,6 +384,291 @@ def oraclize_cases():
     return out
 
 
+# --------------------------------------------------------------------------- names that look like the library's own
+#
+# The names used inside a callee do not matter: the same callee is written with parameters / locals /
+# function names taken from the library's internal naming conventions (the return bits `_ret...`, the
+# rewriter's temporaries `__<name>` / `_iftarg...` / `_temptup`, the compiler's `anc_...` / `TRUE` /
+# `FALSE`, the prefix `<callee>_<name>` bind_function puts on the callee's symbols, the caller's own
+# names).  Any place of the call mechanism that identifies a bit BY NAME instead of by position goes
+# wrong on one of these; the oracle (the Python sources executed with plain values) never looks at names.
+
+HOSTILE_FAMILIES = [
+    ("ret", ["_ret_lo", "_ret0", "_retx", "_ret_0", "_ret1", "_ret_", "_ret"]),
+    ("under", ["_{L1}", "_{P1}", "_{P2}", "__{L1}", "__{P1}"]),
+    ("anc", ["anc_0", "anc_1", "anc"]),
+    ("const", ["TRUE", "FALSE", "true"]),
+    ("rewriter", ["_iftarg2", "_iftarg0", "_iftarg", "_iftarg3", "_temptup", "_iftarg1"]),
+    ("caller", ["p", "q", "u", "v", "caller", "caller_p"]),
+    ("prefix", ["{f}_{P1}", "{f}__ret", "{f}_{P2}", "{f}_{L1}", "{f}__ret_0", "{f}___{P1}", "{f}_{f}", "{f}"]),
+    ("misc", ["ret", "_re", "I", "E", "S", "N", "Q"]),
+]
+HOSTILE_FNAMES = ["hc_", "_ret_h", "anc_h", "_iftarg_h", "hc__ret", "caller_h", "TRUE_"]
+BENIGN = dict(P1="x", P2="y", L1="t", L2="s")
+
+
+def hostile_templates():
+    """callee bodies with several statements; {P1},{P2} parameters, {L1},{L2} locals, {k} the inner function"""
+    return [
+        dict(id="q-tmp", args=[Q(2), Q(2)], ret=Q(2), slots=["L1", "P1", "P2"],
+             body=["{L1} = {P1} ^ {P2}", "return {L1} + {P1}"]),
+        dict(id="b-two", args=[B, B], ret=B, slots=["L1", "L2", "P1", "P2"],
+             body=["{L1} = not {P2}", "{L2} = {L1} ^ {P1}", "return {L2} and {P1}"]),
+        dict(id="t-locals", args=[B, B], ret=T(B, B), slots=["L1", "L2", "P1", "P2"],
+             body=["{L1} = {P1} and not {P2}", "{L2} = {P1} ^ {P2}", "return ({L1}, {L2})"]),
+        dict(id="tq", args=[Q(2), B], ret=T(Q(2), B), slots=["L1", "L2", "P1", "P2"],
+             body=["{L1} = {P1} + 1 if {P2} else {P1}", "{L2} = {L1} == 2", "return ({L1}, {L2} ^ {P2})"]),
+        dict(id="b-reassign", args=[B, B], ret=B, slots=["L1", "P1", "P2"],
+             body=["{L1} = {P1} ^ {P2}", "{L1} = {L1} and {P1}", "{P2} = {L1} or {P2}", "return {P2} ^ {P1}"]),
+        dict(id="b-if", args=[B, B], ret=B, slots=["L1", "P1", "P2"],
+             body=["{L1} = {P2}", "if {P1}:", "\t{L1} = not {P2}", "return {L1} ^ {P1}"]),
+        dict(id="b-if-else", args=[B, B], ret=B, slots=["L1", "L2", "P1", "P2"],
+             body=["{L1} = {P2}", "{L2} = {P1}", "if {P1} ^ {P2}:", "\t{L1} = not {P2}", "else:", "\t{L2} = {P2}",
+                   "if {L2}:", "\t{L1} = {L1} ^ {P1}", "return {L1} or ({L2} and {P2})"]),
+        dict(id="b-stale", args=[B, B], ret=B, slots=["L1", "L2", "P1", "P2"],
+             body=["{L1} = {P1} ^ {P2}", "{L2} = {L1}", "{L1} = not {P2}", "{P1} = {L2} and {P2}",
+                   "return ({L2} ^ {L1}) or {P1}"]),
+        dict(id="b-unpack", args=[B, B], ret=B, slots=["L1", "L2", "P1", "P2"],
+             body=["{L1} = {P1} ^ {P2}", "{L2}, {P2} = {P2}, {L1}", "return ({L1} and {L2}) ^ {P2} ^ {P1}"]),
+        dict(id="t-unpack", args=[T(B, B), B], ret=T(B, B), slots=["L1", "L2", "P1", "P2"],
+             body=["{L1}, {L2} = {P1}", "{L2}, {L1} = {L1} ^ {P2}, {L2}", "return ({L1}, {L2} and {P1}[0])"]),
+        dict(id="q-boollocal", args=[Q(2), Q(2)], ret=Q(2), slots=["L1", "L2", "P1", "P2"],
+             body=["{L1} = {P1} == {P2}", "{L2} = {P1} + 1", "return {L2} if {L1} else {P2}"]),
+        dict(id="nested", args=[B, B], ret=B, slots=["L1", "L2", "P1", "P2"],
+             inner=dict(args=[B], ret=B, body=["{L1} = not {P1}", "return {L1}"]),
+             body=["{L1} = {k}({P2}) ^ {P1}", "{L2} = {k}({L1})", "return {L2} and {P1}"]),
+        dict(id="nested-q", args=[Q(2), Q(2)], ret=Q(2), slots=["L1", "L2", "P1", "P2"],
+             inner=dict(args=[Q(2), Q(2)], ret=Q(2), body=["{L1} = {P2} + 1", "return {L1} ^ {P1}"]),
+             body=["{L1} = {k}({P2}, {P1})", "{L2} = {k}({L1}, {P1}) + 1", "return {L2} ^ {P2}"]),
+    ]
+
+
+def hostile_shapes(tp, f):
+    """caller shapes for callee f of template tp over the caller's parameters p, q -> [(shape, ret, body)]"""
+    t1, t2 = tp["args"]
+    r = tp["ret"]
+    same = json.dumps(norm_t(t1)) == json.dumps(norm_t(t2))
+    sw = f"{f}(q, p)" if same else f"{f}(p, q)"
+    st = f"{f}(p, q)"
+    out = [("plain", r, [f"return {sw}"]), ("via-local", r, [f"u = {st}", "return u"])]
+    # the caller binds locals BEFORE the (inline) definition of the callee and uses them after the call
+    pre = ["u = not p" if t1 == B else "u = p ^ 1" if is_q(t1) else "u = p", "v = q"]
+    if r == B:
+        out.append(("prelude", B, pre + [f"return {f}(u, v) ^ (v if u else q)" if t1 == B else f"return {f}(u, v) ^ v"]))
+    elif is_q(r):
+        out.append(("prelude", r, pre + [f"return {f}(u, v) + u"]))
+    else:
+        out.append(("prelude", r, pre + [f"t = {f}(u, v)", "return t"]))
+    if r == B:
+        out.append(("in-expr", B, [f"return {st} ^ q"]))
+        out.append(("in-compare", B, [f"return not {sw}"]))
+        out.append(("tuple-pack", T(B, B), [f"return ({st}, {sw})"] if same else [f"return ({st}, q)"]))
+    elif is_q(r):
+        out.append(("in-expr", r, [f"return {sw} + 1"]))
+        out.append(("in-compare", B, [f"return {sw} == 1"]))
+        out.append(("tuple-pack", T(r, r), [f"return ({st}, {sw})"]))
+    elif json.dumps(norm_t(r)) == json.dumps(norm_t(T(B, B))):
+        out.append(("in-expr", B, [f"u = {st}", "return u[1] and not u[0]"]))
+        out.append(("in-compare", B, [f"u = {sw}", "return u[0] == u[1]"]))
+    else:
+        out.append(("in-expr", Q(2), [f"u = {st}", "return u[0] + 1 if u[1] else u[0]"]))
+        out.append(("in-compare", B, [f"u = {st}", "return (u[0] == 1) ^ u[1]"]))
+    if json.dumps(norm_t(r)) == json.dumps(norm_t(t1)):
+        out.append(("two-calls", r, [f"u = {st}", f"return {f}(u, {'p' if same else 'q'})"]))
+        out.append(("nested-call", r, [f"return {f}({st}, q)"]))
+    elif is_t(r) and same:
+        out.append(("two-calls", B, [f"u = {st}", f"v = {f}(q, p)", "return u[0] ^ v[1]"]))
+    else:
+        out.append(("two-calls", r, [f"u = {st}", f"v = {f}(u[0], u[1])", "return v"]))
+    return out
+
+
+def hostile_resolve(pattern, f, names):
+    return pattern.format(f=f, **names)
+
+
+def hostile_case(tp, names, shape_i, kind, f="hc", k="kc"):
+    """one case: template, slot names (dict P1,P2,L1,L2), caller shape index, kind in inline|defs|defs-inline"""
+    nm = dict(names)
+    fmt = dict(nm, k=k)
+    args = list(zip([nm["P1"], nm["P2"]], tp["args"]))
+    body = [l.format(**fmt) for l in tp["body"]]
+    cals = []
+    inner = tp.get("inner")
+    if inner is not None:
+        iargs = list(zip([nm["P1"], nm["P2"]], inner["args"]))
+        ic = callee(k, iargs, inner["ret"], [l.format(**fmt) for l in inner["body"]])
+        if kind == "defs":
+            cals.append(ic)
+        else:
+            body = ic["src"].rstrip("\n").split("\n") + body
+    cal = callee(f, args, tp["ret"], body, deps=[k] if (inner is not None and kind == "defs") else [])
+    shapes = hostile_shapes(tp, f)
+    shape, ret, cbody = shapes[shape_i % len(shapes)]
+    params = [["p", norm_t(tp["args"][0])], ["q", norm_t(tp["args"][1])]]
+    tag = f"hostile-{tp['id']}"
+    info = dict(nm, f=f, k=k, caller_shape=shape, callee_kind=kind)
+    if kind == "inline":
+        npre = 2 if shape == "prelude" else 0
+        return mk_case([], params, ret, cbody[:npre] + cal["src"].rstrip("\n").split("\n") + cbody[npre:], tag,
+                       kind="inline", hostile=info)
+    return mk_case(cals + [cal], params, ret, cbody, tag, kind="defs", hostile=info)
+
+
+def hostile_names(tp, slot, pattern, f="hc"):
+    """the slot assignment with `pattern` at `slot`, or None when it is not a usable assignment"""
+    try:
+        name = pattern.format(f=f, **BENIGN)
+    except KeyError:
+        return None
+    nm = dict(BENIGN)
+    if name in nm.values():
+        return None
+    nm[slot] = name
+    return nm
+
+
+def hostile_kinds(tp):
+    return ["inline", "defs", "defs-inline"] if "inner" in tp else ["inline", "defs"]
+
+
+def hostile_systematic(thorough=False):
+    """the same for every seed.  (i) the `_ret...` names (the return-bit convention) at every slot of every template,
+    every caller shape, every kind; (ii) every other name x slot, templates / shapes / kinds by rotation (quick: two
+    templates per name x slot; thorough: all); (iii) all slots hostile at once, families mixed; (iv) hostile
+    function names"""
+    tps = hostile_templates()
+    out = []
+    seen = set()
+
+    def add(c):
+        key = (c["caller"], json.dumps([x["src"] for x in c["callees"]]))
+        if key not in seen:
+            seen.add(key)
+            out.append(c)
+
+    # (i)
+    for ti, tp in enumerate(tps):
+        nsh = len(hostile_shapes(tp, "hc"))
+        for slot in tp["slots"]:
+            for pat in (["_ret_lo", "_ret0"] if slot.startswith("L") else ["_ret_lo"]):
+                nm = hostile_names(tp, slot, pat)
+                for si in range(nsh):
+                    for ki, kind in enumerate(hostile_kinds(tp)):
+                        if thorough or (slot.startswith("L") and pat == "_ret_lo") or (si + ti + ki) % 4 == 0:
+                            add(hostile_case(tp, nm, si, kind))
+    # (ii)
+    i = 0
+    for fam, pats in HOSTILE_FAMILIES:
+        for pat in pats:
+            for sl in ("L1", "L2", "P1", "P2"):
+                i += 1
+                picks = range(len(tps)) if thorough else [(i + j * 4) % len(tps) for j in range(2)]
+                for j, ti in enumerate(picks):
+                    tp = tps[ti]
+                    slot = sl if sl in tp["slots"] else tp["slots"][0]
+                    nm = hostile_names(tp, slot, pat)
+                    if nm is None:
+                        continue
+                    kinds = hostile_kinds(tp)
+                    add(hostile_case(tp, nm, i + j, kinds[(i + j) % len(kinds)]))
+    # (iii)
+    flat = [p for _, ps in HOSTILE_FAMILIES for p in ps if "{" not in p and p not in ("_ret", "p", "q", "u", "v")]
+    for n in range(len(flat)):
+        tp = tps[n % len(tps)]
+        nm = dict(P1=flat[n], P2=flat[(n + 7) % len(flat)], L1=flat[(n + 13) % len(flat)], L2=flat[(n + 22) % len(flat)])
+        if len(set(nm.values())) < 4:
+            continue
+        kinds = hostile_kinds(tp)
+        add(hostile_case(tp, nm, n, kinds[n % len(kinds)]))
+    # (v) the names the rewriter generates, in callees that make it generate them (if statements, unpacking)
+    for tp in tps:
+        if tp["id"] not in ("b-if", "b-if-else", "b-unpack", "t-unpack"):
+            continue
+        for n, pat in enumerate(["_iftarg2", "_iftarg3", "_iftarg", "_iftarg0", "_temptup"]):
+            for m, slot in enumerate(tp["slots"]):
+                nm = hostile_names(tp, slot, pat)
+                for si in ((2 * n + m,) if not thorough else range(len(hostile_shapes(tp, "hc")))):
+                    for kind in hostile_kinds(tp):
+                        add(hostile_case(tp, nm, si, kind))
+    # (iv)
+    for n, fn in enumerate(HOSTILE_FNAMES):
+        for j in range(2):
+            tp = tps[(n * 2 + j) % len(tps)]
+            kinds = hostile_kinds(tp)
+            nm = dict(BENIGN)
+            if j:
+                nm["L1"] = "_ret_lo"
+            add(hostile_case(tp, nm, n + j, kinds[(n + j) % len(kinds)], f=fn, k=fn + "k"))
+    return out
+
+
+def hostile_random_name(rng, f, others):
+    r = rng.random()
+    dig = str(rng.randint(0, 12))
+    if r < 0.3:
+        return "_ret" + rng.choice(["_lo", "_hi", "x", "_", "val", "_tmp", "", "__"]) + rng.choice(["", "", dig])
+    if r < 0.4:
+        return rng.choice(["_", "__", "___"]) + rng.choice(others + ["w", "tmp"])
+    if r < 0.5:
+        return rng.choice(["anc_", "anc", "anc_a"]) + dig
+    if r < 0.6:
+        return rng.choice(["_iftarg", "_iftarg_", "_temptup", "TRUE", "FALSE", "TRUE_", "FALSE" + dig, "_iftarg" + dig])
+    if r < 0.75:
+        return f + rng.choice(["_", "__", "___"]) + rng.choice(others + ["_ret", "ret", "_ret.0".replace(".", "_"), f])
+    if r < 0.9:
+        return rng.choice(["p", "q", "u", "v", "caller", "caller_p", "caller_q", "caller__ret"])
+    return rng.choice(["w", "z", "m", "tmp", "ret", "I", "E", "S", "N"]) + rng.choice(["", dig])
+
+
+def hostile_random(rng, count):
+    """randomised variants: random template (or a random boolean body), random hostile names at a random subset of
+    the slots, random function names, caller shape and kind"""
+    from . import progs
+    tps = hostile_templates()
+    out = []
+    tries = 0
+    while len(out) < count and tries < count * 20:
+        tries += 1
+        if rng.random() < 0.3:
+            # random boolean body over the slots
+            nst = rng.randint(1, 3)
+            loc = ["{L1}", "{L2}"]
+            avail = ["{P1}", "{P2}"]
+            body = []
+            for s in range(nst):
+                tgt = rng.choice(loc + ([rng.choice(avail)] if rng.random() < 0.2 else []))
+                body.append(f"{tgt} = {progs.gen_bool_expr(rng, avail, 2)}")
+                if tgt not in avail:
+                    avail.append(tgt)
+            if rng.random() < 0.5:
+                body.append(f"return {progs.gen_bool_expr(rng, avail, 2)}")
+                ret = B
+            else:
+                body.append(f"return ({progs.gen_bool_expr(rng, avail, 2)}, {progs.gen_bool_expr(rng, avail, 1)})")
+                ret = T(B, B)
+            tp = dict(id="rnd-body", args=[B, B], ret=ret, slots=["L1", "L2", "P1", "P2"], body=body)
+        else:
+            tp = rng.choice(tps)
+        f = rng.choice(["hc", "hc", "hc", "hq"] + HOSTILE_FNAMES)
+        k = rng.choice(["kc", f + "k", f + "_k", "_ret_k"])
+        nm = dict(BENIGN)
+        slots = [s for s in ("L1", "L2", "P1", "P2") if rng.random() < 0.55] or ["L1"]
+        for sl in slots:
+            nm[sl] = hostile_random_name(rng, f, [v for kk, v in BENIGN.items() if kk != sl])
+        if len(set(nm.values()) | {f, k}) < 6:
+            continue
+        kind = rng.choice(hostile_kinds(tp))
+        try:
+            c = hostile_case(tp, nm, rng.randint(0, 20), kind, f=f, k=k)
+            ast.parse(c["caller"])
+        except (SyntaxError, KeyError, IndexError):
+            continue
+        c["shape"] = "rnd-" + c["shape"]
+        out.append(c)
+    return out
+
+
 NAME_POOL = ["x", "y", "z", "p", "q", "k", "m", "n", "u", "v", "w", "i", "j", "s", "t", "l", "o", "r"]
 
 
@@ -590,7 +878,7 @@ def fingerprint(qf):
 def py_namespace():
     from typing import Tuple
     import qlasskit
-    ns = {"Tuple": Tuple}
+    ns = {"Tuple": Tuple, "Qint": qlasskit.Qint, "_qv_wrap": lambda t: (lambda fn: wrapped(fn, t))}
     for n in (2, 3, 4, 5, 6, 7, 8):
         ns[f"Qint{n}"] = getattr(qlasskit, f"Qint{n}")
     return ns
@@ -611,6 +899,43 @@ def wrapped(fn, ret):
     return w
 
 
+def ann_type(node):
+    """the type an annotation denotes (bool, Qint2 / Qint[2], Tuple[...]) or None"""
+    if isinstance(node, ast.Name):
+        if node.id == "bool":
+            return B
+        if node.id.startswith("Qint") and node.id[4:].isdigit():
+            return ("Q", int(node.id[4:]))
+        return None
+    if isinstance(node, ast.Subscript) and isinstance(node.value, ast.Name):
+        sl = node.slice
+        if node.value.id == "Qint" and isinstance(sl, ast.Constant) and isinstance(sl.value, int):
+            return ("Q", sl.value)
+        if node.value.id == "Tuple":
+            elts = sl.elts if isinstance(sl, ast.Tuple) else [sl]
+            ts = [ann_type(e) for e in elts]
+            return None if any(t is None for t in ts) else ("T", ts)
+    return None
+
+
+def oracle_src(src):
+    """the source the Python oracle executes: every function defined INSIDE another one gets a decorator that
+    wraps its result to the declared return type (a Qint[2] callee returns a 2-bit value also when its caller
+    compares it), as `wrapped` does for the functions passed in defs="""
+    tree = ast.parse(src)
+    changed = False
+    for top in tree.body:
+        for node in ast.walk(top):
+            if isinstance(node, ast.FunctionDef) and node is not top and node.returns is not None:
+                t = ann_type(node.returns)
+                if t is not None:
+                    node.decorator_list.append(ast.parse(f"_qv_wrap({t!r})", mode="eval").body)
+                    changed = True
+    if not changed:
+        return src
+    return ast.unparse(ast.fix_missing_locations(tree)) + "\n"
+
+
 def table_of_python(fn, params, ret):
     rows = []
     for vals in itertools.product(*[tvalues(t) for _, t in params]):
@@ -620,6 +945,10 @@ def table_of_python(fn, params, ret):
             bits += tenc(t, v)
         rows.append((bits, tenc(ret, out)))
     return rows
+
+
+def bitstr(bits):
+    return "".join("1" if b else "0" for b in bits)
 
 
 def eval_qf(qf_args_bits, exps_json, ret_bits, bits):
@@ -655,14 +984,15 @@ def judge_qf(qf, fn, params, ret):
                     expressions=[[s, str(bexp.from_json(e))] for s, e in exps])
     if len(arg_bits) != sum(tbits(t) for _, t in params):
         return dict(what="argument bits differ from the declared shape", bits=arg_bits)
-    for bits, want in table_of_python(fn, params, ret):
+    rows = table_of_python(fn, params, ret)
+    for bits, want in rows:
         got = eval_qf(arg_bits, exps, list(qf.returns.bitvec), bits)
         if got != want:
             return dict(what="truth table differs from the Python meaning",
-                        input="".join("1" if b else "0" for b in bits),
-                        code="".join("1" if b else "0" for b in got),
-                        expected="".join("1" if b else "0" for b in want),
-                        expressions=[[s, str(bexp.from_json(e))] for s, e in exps])
+                        input=bitstr(bits), code=bitstr(got), expected=bitstr(want),
+                        expressions=[[s, str(bexp.from_json(e))] for s, e in exps],
+                        code_table={bitstr(b): bitstr(eval_qf(arg_bits, exps, list(qf.returns.bitvec), b))
+                                    for b, _ in rows})
     return None
 
 
@@ -676,7 +1006,7 @@ def run_case(case):
     fps = {}
     try:
         for c in case["callees"]:
-            exec(c["src"], ns)
+            exec(oracle_src(c["src"]), ns)
             ns[c["name"]] = wrapped(ns[c["name"]], c["ret"])
     except Exception as e:
         out.update(status="bad-case", error=f"{type(e).__name__}: {e}")
@@ -691,11 +1021,15 @@ def run_case(case):
                 return out
             qfs[c["name"]] = qf
             j = judge_qf(qf, ns[c["name"]], c["args"], c["ret"])
-            if j is not None and not c["deps"]:
+            if j is not None and not c["deps"] and not case.get("hostile"):
                 out.update(status="callee-bad", error=j["what"])
                 return out
             if j is not None:
-                out.update(status="fail", fail=dict(j, stage=f"callee {c['name']} (uses {c['deps']})"))
+                # (the names used inside a callee do not matter: a callee of the internal-looking-names family that
+                # is compiled to another function on its own is a failing input here, not a skipped case)
+                out.update(status="fail", fail=dict(j, stage=f"callee {c['name']} compiled on its own (uses {c['deps']})"),
+                           failed=dict(name=c["name"], src=c["src"], params=c["args"], ret=c["ret"], deps=c["deps"],
+                                       wrap=True))
                 return out
             fps[c["name"]] = fingerprint(qf)
         n_callee_records = len(log.records)
@@ -729,7 +1063,7 @@ def run_case(case):
         else:
             py_ok = True
             try:
-                exec(case["caller"], ns)
+                exec(oracle_src(case["caller"]), ns)
                 want_fn = ns["caller"]
                 # a caller Python itself rejects on some input has no meaning to compare with
                 table_of_python(want_fn, case["params"], case["ret"])
@@ -745,7 +1079,9 @@ def run_case(case):
             if qc is not None and py_ok:
                 j = judge_qf(qc, want_fn, case["params"], case["ret"])
                 if j is not None:
-                    out.update(status="fail", fail=dict(j, stage="caller"))
+                    out.update(status="fail", fail=dict(j, stage="caller"),
+                               failed=dict(name="caller", src=case["caller"], params=case["params"], ret=case["ret"],
+                                           deps=[c["name"] for c in case["callees"]], wrap=False))
         # the callee objects are unchanged
         for c in case["callees"]:
             if fingerprint(qfs[c["name"]]) != fps[c["name"]] and out["status"] != "fail":
@@ -754,6 +1090,192 @@ def run_case(case):
                                                    after=fingerprint(qfs[c["name"]])[:300]))
     out["n_callee_records"] = n_callee_records
     return out
+
+
+# --------------------------------------------------------------------------- attribution: captured internal names
+#
+# Three open findings are about user names that look like names the library generates.  A failing case is one of
+# them only if a quirk-oracle - the Python source rewritten the way the library rewrites it, executed by CPython,
+# then (for the third) the by-name merge of the optimizer applied to the definition list - predicts the code's
+# truth table bit for bit on every input, and switching that one quirk off changes the prediction.
+
+NAME_QUIRKS = {
+    "C07-iftarg-name-capture": "iftarg",
+    "C07-temptup-name-capture": "temptup",
+    "C07-ret-prefix-merge": "retmerge",
+}
+
+
+class QuirkRewriter:
+    """the part of qlasskit's ast2ast that introduces names: `a, b = e` becomes `_temptup = e; a = _temptup[0]; ...`
+    (ReplaceMultiTargetAssign), `if c: t = v` becomes `_iftarg<k> = c; t = v if _iftarg<k> else t` with k = 2, 3, ...
+    (hex) in the order visit_If takes them (body and orelse first), and an else-branch assignment to a name starting
+    with _iftarg is made unconditionally (ASTRewriter.visit_If).  In CPython's semantics the rewritten source means
+    the same as the original one unless the function uses one of these names itself."""
+
+    def __init__(self, flags):
+        self.flags = set(flags)
+        self.k = 1
+
+    def uniq(self):
+        self.k += 1
+        return f"{self.k:x}"
+
+    def block(self, stmts):
+        out = []
+        for st in stmts:
+            out += self.stmt(st)
+        return out
+
+    def stmt(self, st):
+        if isinstance(st, ast.FunctionDef):
+            st.body = self.block(st.body)
+            return [st]
+        if isinstance(st, ast.Assign) and len(st.targets) == 1 and isinstance(st.targets[0], (ast.Tuple, ast.List)) \
+                and "temptup" in self.flags:
+            elts = st.targets[0].elts
+            if not all(isinstance(e, ast.Name) for e in elts):
+                raise ValueError("not modelled")
+            if isinstance(st.value, ast.Name):
+                src = st.value.id
+                pre = []
+            else:
+                src = "_temptup"
+                pre = [ast.Assign(targets=[ast.Name(id="_temptup", ctx=ast.Store())], value=st.value)]
+            return pre + [ast.Assign(targets=[ast.Name(id=e.id, ctx=ast.Store())],
+                                     value=ast.Subscript(value=ast.Name(id=src, ctx=ast.Load()),
+                                                         slice=ast.Constant(value=i), ctx=ast.Load()))
+                          for i, e in enumerate(elts)]
+        if isinstance(st, ast.If) and "iftarg" in self.flags:
+            body = self.block(st.body)
+            orelse = self.block(st.orelse)
+            test = "_iftarg" + self.uniq()
+            out = [ast.Assign(targets=[ast.Name(id=test, ctx=ast.Store())], value=st.test)]
+            for branch, positive in ((body, True), (orelse, False)):
+                for b in branch:
+                    if not (isinstance(b, ast.Assign) and len(b.targets) == 1 and isinstance(b.targets[0], ast.Name)):
+                        raise ValueError("not modelled")
+                    t = b.targets[0].id
+                    if not positive and t.startswith("_iftarg"):
+                        out.append(b)
+                        continue
+                    keep = ast.Name(id=t, ctx=ast.Load())
+                    out.append(ast.Assign(targets=[ast.Name(id=t, ctx=ast.Store())], value=ast.IfExp(
+                        test=ast.Name(id=test, ctx=ast.Load()),
+                        body=b.value if positive else keep, orelse=keep if positive else b.value)))
+            return out
+        if isinstance(st, ast.If):
+            st.body = self.block(st.body)
+            st.orelse = self.block(st.orelse)
+            return [st]
+        if isinstance(st, (ast.For, ast.While, ast.With, ast.Try)) and self.flags:
+            raise ValueError("not modelled")
+        return [st]
+
+
+def quirk_source(src, flags):
+    tree = ast.parse(src)
+    # ReplaceMultiTargetAssign runs over the whole tree before ASTRewriter does
+    tree.body = QuirkRewriter(set(flags) & {"temptup"}).block(tree.body)
+    tree.body = QuirkRewriter(set(flags) & {"iftarg"}).block(tree.body)
+    return ast.unparse(ast.fix_missing_locations(tree)) + "\n"
+
+
+def quirk_python_table(case, failed, flags):
+    """{input bits: output bits} of the failing function under the source-level quirks `flags`; None = no prediction"""
+    try:
+        ns = py_namespace()
+        for c in case["callees"]:
+            if c["name"] == failed["name"]:
+                break
+            exec(oracle_src(c["src"]), ns)
+            ns[c["name"]] = wrapped(ns[c["name"]], c["ret"])
+        exec(oracle_src(quirk_source(failed["src"], flags)), ns)
+        fn = ns[failed["name"]]
+        if failed["wrap"]:
+            fn = wrapped(fn, failed["ret"])
+        return {bitstr(b): bitstr(o) for b, o in table_of_python(fn, failed["params"], failed["ret"])}
+    except Exception:
+        return None
+
+
+def subst_json(j, m):
+    if j[0] == "sym":
+        return m.get(j[1], j)
+    return [j[0]] + [subst_json(x, m) if isinstance(x, list) else x for x in j[1:]]
+
+
+def merge_by_prefix(exps):
+    """boolopt.merge_expressions: every definition is substituted into the later ones, except those whose NAME starts
+    with _ret, which are kept (also when the name is a variable of the user's that is bound again later)"""
+    emap, kept = {}, []
+    for s, e in exps:
+        e = subst_json(e, emap)
+        if s[0:4] != "_ret":
+            emap[s] = e
+        else:
+            kept.append([s, e])
+    return kept
+
+
+def unoptimised(case, failed):
+    """the failing function's definition list before the optimizer ran (the code's own translator, no optimizer)"""
+    from qlasskit import qlassf
+    from qlasskit.boolopt.bool_optimizer import BoolOptimizerProfile
+    qfs = {}
+    for c in case["callees"]:
+        if c["name"] == failed["name"]:
+            break
+        qfs[c["name"]] = qlassf(c["src"], defs=[qfs[d] for d in c["deps"]], to_compile=False)
+    qf = qlassf(failed["src"], defs=[qfs[d] for d in failed["deps"]], to_compile=False,
+                bool_optimizer=BoolOptimizerProfile([]))
+    return ([b for a in qf.args for b in a.bitvec], list(qf.returns.bitvec),
+            [[s.name, bexp.to_json(e)] for s, e in qf.expressions])
+
+
+def table_of_defs(arg_bits, ret_bits, exps):
+    return {bitstr(bits): bitstr(eval_qf(arg_bits, exps, ret_bits, list(bits)))
+            for bits in itertools.product([False, True], repeat=len(arg_bits))}
+
+
+def attribute_names(ctx, case, oc):
+    """the ids of the open, active name-capture findings that explain the failing case exactly, or None"""
+    failed = oc.get("failed")
+    code = (oc.get("fail") or {}).get("code_table")
+    if not failed or not code:
+        return None
+    active = {NAME_QUIRKS[f["id"]]: f["id"] for f in ctx.findings
+              if f["id"] in NAME_QUIRKS and f.get("status", "open") == "open" and f.get("_active")}
+    if not active:
+        return None
+    src_flags = sorted(set(active) & {"iftarg", "temptup"})
+    full = quirk_python_table(case, failed, src_flags)
+    if full is None:
+        return None
+    implicated = []
+    for fl in src_flags:
+        # trigger: the function uses the very name the rewriter generates, and the capture changes its meaning
+        if quirk_python_table(case, failed, [x for x in src_flags if x != fl]) != full:
+            implicated.append(fl)
+    predicted = full
+    if "retmerge" in active:
+        try:
+            arg_bits, ret_bits, exps = unoptimised(case, failed)
+        except Exception:
+            return None
+        # trigger: a definition named _ret... that is not one of the return bits
+        if any(s[0:4] == "_ret" and s not in ret_bits for s, _ in exps) and not dangling(arg_bits, exps):
+            if table_of_defs(arg_bits, ret_bits, exps) != full:
+                return None  # the translator itself does something that is not modelled here
+            merged = merge_by_prefix(exps)
+            if dangling(arg_bits, merged):
+                return None
+            predicted = table_of_defs(arg_bits, ret_bits, merged)
+            if predicted != full:
+                implicated.append("retmerge")
+    if not implicated or predicted != code:
+        return None
+    return [active[fl] for fl in implicated]
 
 
 # --------------------------------------------------------------------------- model side
@@ -893,7 +1415,11 @@ def check_cases(ctx, res, cases, bucket):
             all_match = False
         if oc["status"] == "fail":
             fids = [finding_of_flag(ctx, fl) for fl in sorted(implicated)]
-            if implicated and all(fids) and all_match:
+            named = attribute_names(ctx, case, oc) if (all_match and not implicated) else None
+            if named:
+                for fid in named:
+                    res.known(fid)
+            elif implicated and all(fids) and all_match:
                 for fid in fids:
                     res.known(fid)
             else:
@@ -1018,11 +1544,22 @@ def run(ctx: Ctx) -> Result:
     sysc = systematic_cases()
     check_cases(ctx, res, sysc, "sys")
     ctx.log(f"[C07] systematic {len(sysc)} cases {time.time() - t0:.1f}s")
+    t1 = time.time()
+    hsys = hostile_systematic(ctx.thorough)
+    for i in range(0, len(hsys), 100):
+        check_cases(ctx, res, hsys[i:i + 100], "sys")
+    ctx.log(f"[C07] systematic, internal-looking names: {len(hsys)} cases {time.time() - t1:.1f}s")
+    t1 = time.time()
+    hrnd = hostile_random(ctx.rng, 600 if ctx.thorough else 40)
+    for i in range(0, len(hrnd), 100):
+        check_cases(ctx, res, hrnd[i:i + 100], "rnd")
+    ctx.log(f"[C07] random, internal-looking names: {len(hrnd)} cases {time.time() - t1:.1f}s")
     n_rand = 5000 if ctx.thorough else 150
     n_syn = 8000 if ctx.thorough else 300
-    budget = 600 if ctx.thorough else 45
+    budget = 500 if ctx.thorough else 30
     done = 0
-    while done < n_rand and time.time() - t0 < budget:
+    t1 = time.time()
+    while done < n_rand and time.time() - t1 < budget:
         batch = random_cases(ctx.rng, min(50, n_rand - done))
         check_cases(ctx, res, batch, "rnd")
         done += len(batch)
